@@ -22,7 +22,7 @@ RULE = ("models x N in 1..4 x every missing-data mask of the n_y x N panel x std
         "x data vector; distinct non-trivial = (model, N, mask, std setting, deviation, rescale, data)")
 MANIFEST_ENTRY = dict(level="exploration", design="DESIGN.md section 4 / C03",
     technique="bounded-exhaustive enumeration of all missing-data masks x configurations on generated state-space models; explicit joint-Gaussian stacking oracle (one linear solve per conditioning set)",
-    text="For 13 (quick) / 18 (thorough) solved stationary models (1-4 states, 1-2 observables, with/without measurement shocks, lagged state in the measurement equation, AR(2), coupled oscillating AR(2) pair with complex roots, forward-looking, log observable), every span length N<=3 (quick; N<=4 thorough) and EVERY missing-data mask of the n_y x N panel, under 3 std settings (incl. time-varying stds from data), deviation on/off, rescale_variance on/off and 2 dense data vectors, the filter's neg_log_likelihood (two entry points), per-period contributions (sum and each one, zero for empty periods), var_scale, predict/update/smooth means and variances of every variable and shock, prediction errors and prediction MSE matrices are compared with exact conditioning of the stacked joint normal law; a two-variant model on two-variant data must reproduce the two single-variant runs (rescale_variance on/off).",
+    text="For 13 (quick) / 18 (thorough) solved stationary models (1-4 states, 1-2 observables, with/without measurement shocks, lagged state in the measurement equation, AR(2), coupled oscillating AR(2) pair with complex roots, forward-looking, log observable), every span length N<=3 (quick; N<=4 thorough) and EVERY missing-data mask of the n_y x N panel, under 3 std settings (incl. time-varying stds from data), deviation on/off, rescale_variance on/off and 2 dense data vectors, the filter's neg_log_likelihood (two entry points), per-period contributions (sum and each one, zero for empty periods), var_scale, predict/update/smooth means and variances of every variable and shock, prediction errors and prediction MSE matrices are compared with exact conditioning of the stacked joint normal law; a two-variant model on two-variant data must reproduce the two single-variant runs (rescale_variance on/off); each output group requested alone (return_predict / return_update / return_smooth) and likelihood_contributions=False must give what the all-outputs run gives.",
     note="Trusted: numpy linear algebra and ref/gauss.py; the solution matrices are taken from get_solution() (decided by C01). Standard deviations are compared as variances; shock stds that the implementation does not report (NaN) are pinned to the set measured on the unchanged tree. Unit-root models are covered under the default diffuse_method='fixed_unknown' only (oracle: GLS-concentrated likelihood in the coordinates of the reported triangular solution); approx_diffuse is not covered.")
 ASSUMPTIONS = ["the first-order solution matrices are correct (C01)", "initial condition = stationary law under the model's assigned stds; for unit roots: fixed unknown initial condition of the unit-root block of the reported triangular solution"]
 
@@ -396,6 +396,65 @@ def check_variants(spec, m, N, setting, dev, res, ctx):
                 bad("exception", "variants: %s: %s" % (type(e).__name__, str(e)[:300]), error=type(e).__name__, rescale=rescale)
 
 
+def check_requested_outputs(spec, m, N, setting, dev, res, ctx):
+    """what one asks the filter to return must not change what it returns: each output requested alone (and the
+    likelihood without per-period contributions) equals the same output of the run that returns everything"""
+    label, base, tv = setting
+    if tv is not None:
+        return
+    ny = len(spec.meas)
+    masks = list(all_masks(ny, N))
+    pick = [masks[-1], masks[len(masks) // 2], masks[(2 * len(masks)) // 3]]
+    pat = data_patterns(ny, N, ctx.seed)[1] * (0.1 if spec.log else 1.0)
+    st = spec.steady()
+    ss = np.zeros(ny) if dev or st is None else np.array([sum(c * st[j] for (j, s_, c) in e["terms"]) + e.get("const", 0.0) for e in spec.meas])
+    lev = ss[:, None] + pat
+    lev = np.exp(lev) if spec.log else lev
+    # (prediction errors are filled in by the updating step only: without return_update the predict_err box is
+    # all-missing - outside the statement, recorded in DESIGN.md, not gated)
+    groups = {"predict": ("predict_med", "predict_std"), "update": ("update_med", "update_std", "predict_err"),
+              "smooth": ("smooth_med", "smooth_std")}
+    for mask in pick:
+        case = {"spec": spec.to_json(), "N": N, "setting": label, "deviation": dev, "rescale": False, "mask": mask.astype(int).tolist(), "pattern": "requested_outputs"}
+
+        def bad(check, detail, **extra):
+            sig = {"setting": label, "deviation": dev, "log": spec.log, "ny": ny, "what": "requested_outputs"}
+            sig.update(extra)
+            res.violation(check, sig, case, "%s N=%d mask=%s: %s" % (spec.name, N, mask.astype(int).tolist(), detail))
+        try:
+            full = Filtered(spec, m, lev, mask, N, dev, False, None)
+            for only, keys in groups.items():
+                kw = {"return_" + g: (g == only) for g in ("predict", "update", "smooth")}
+                part = Filtered(spec, m, lev, mask, N, dev, False, None, **kw)
+                res.ev()
+                res.count("requested_output_runs")
+                res.nt((spec.name, N, label, dev, mask.tobytes(), "requested", only))
+                if not np.isclose(part.info["neg_log_likelihood"], full.info["neg_log_likelihood"], rtol=1e-10, atol=1e-10, equal_nan=True):
+                    bad("requested_outputs", "only %s requested: neg_log_likelihood %.12g, all outputs requested %.12g"
+                        % (only, part.info["neg_log_likelihood"], full.info["neg_log_likelihood"]), only=only)
+                for key in keys:
+                    if key not in part.out:
+                        bad("requested_outputs", "only %s requested: %s is not returned" % (only, key), only=only)
+                        continue
+                    for n_ in full.out[key].keys():
+                        a = full.out[key][n_].get_data_from_until((START, START + N - 1))[:, 0]
+                        if n_ not in part.out[key]:
+                            bad("requested_outputs", "only %s requested: %s %s is not returned" % (only, key, n_), only=only)
+                            break
+                        b = part.out[key][n_].get_data_from_until((START, START + N - 1))[:, 0]
+                        if not np.allclose(a, b, rtol=1e-10, atol=1e-12, equal_nan=True):
+                            bad("requested_outputs", "only %s requested: %s %s = %s, all outputs requested %s"
+                                % (only, key, n_, np.round(b, 9).tolist(), np.round(a, 9).tolist()), only=only)
+                            break
+            nc = Filtered(spec, m, lev, mask, N, dev, False, None, likelihood_contributions=False)
+            res.ev()
+            if not np.isclose(nc.info["neg_log_likelihood"], full.info["neg_log_likelihood"], rtol=1e-10, atol=1e-10, equal_nan=True):
+                bad("requested_outputs", "likelihood_contributions=False: neg_log_likelihood %.12g vs %.12g"
+                    % (nc.info["neg_log_likelihood"], full.info["neg_log_likelihood"]), only="no_contributions")
+        except Exception as e:
+            bad("exception", "requested outputs: %s: %s" % (type(e).__name__, str(e)[:300]), error=type(e).__name__)
+
+
 def shard(item, res, ctx):
     spec = linre.LinSpec.from_json(item["spec"])
     m = build(spec)
@@ -404,6 +463,7 @@ def shard(item, res, ctx):
     m.assign(**setting[1])
     check_config(spec, m, N, setting, item["dev"], res, ctx)
     check_variants(spec, m, N, setting, item["dev"], res, ctx)
+    check_requested_outputs(spec, m, N, setting, item["dev"], res, ctx)
 
 
 def run(ctx, total, info):
@@ -421,7 +481,8 @@ def run(ctx, total, info):
     info["models"] = len(models(ctx.tier))
     info["floors"] = {"filter_calls": (total.evaluations, 8000), "mask_shapes": (len(total.classes.get("mask_shape", ())), 20),
                       "unit_root_cases": (total.counters.get("unit_root_cases", 0), 500),
-                      "variant_runs": (total.counters.get("variant_runs", 0), 400)}
+                      "variant_runs": (total.counters.get("variant_runs", 0), 400),
+                      "requested_output_runs": (total.counters.get("requested_output_runs", 0), 1000)}
     # the moments the implementation reports (finite cells) are pinned: none of these classes may disappear
     c = total.counters
     for key in ("predict_med_v", "predict_med_o", "predict_med_e", "predict_med_w", "update_med_v", "update_med_o", "update_med_e",
